@@ -370,6 +370,11 @@ theorem compileGlobal_kids {n prog} (h : compileGlobal n = .ok prog) : ∀ c ∈
   obtain ⟨names, _, rfl⟩ := h
   intro c hc; simp [Instr.kids] at hc
 
+theorem compileNonlocal_kids {n prog} (h : compileNonlocal n = .ok prog) : ∀ c ∈ progKids prog, Sub c n := by
+  simp only [compileNonlocal, bind_ok_iff, pure_ok_iff] at h
+  obtain ⟨names, _, rfl⟩ := h
+  intro c hc; simp [Instr.kids] at hc
+
 theorem compileName_kids {n prog} (h : compileName n = .ok prog) : ∀ c ∈ progKids prog, Sub c n := by
   simp only [compileName, bind_ok_iff] at h
   obtain ⟨ctx, _, h⟩ := h
@@ -407,6 +412,7 @@ theorem compile_kids_sub {n prog} (h : compile n = .ok prog) : ∀ c ∈ progKid
   · exact compileWith_kids h
   · exact compileWith_kids h
   · exact compileGlobal_kids h
+  · exact compileNonlocal_kids h
   · exact compileName_kids h
   · exact compileNamedExpr_kids h
   · simp only [pure_ok_iff] at h; subst h
